@@ -6,7 +6,7 @@ import itertools
 
 from ..kernel import Chooser
 from ..lazy import seq
-from ..seqcheck import explore_task
+from ..seqcheck import explore_task, nest_tasks
 from ..spec import attempts, sanitise, strategy_for, strategy_style
 from ..tracelib import split_calls
 
@@ -68,6 +68,9 @@ def tasks(tier):
                 for first in cfg["alphabet"]:
                     out.append({"family": "delay4", "cfg": dict(cfg, script_prefix=[first]),
                                 "entry": e, "bound": 0, "weight": 6})
+    out += nest_tasks(Q4, "delay-reentrant", ["ok", "x:T", "x:R+ra", "r:T"],
+                      strat_menu=[1, 9, "nan"], strat_free=True, deadline=6,
+                      strat={"default": "ctx", "per": {"T": "legacy"}})
     return out
 
 
